@@ -23,8 +23,10 @@ def set_effect(stmt, host='host'):
                 return 'REMOVE'
         if isinstance(v, ast.BinOp) and isinstance(v.op, ast.Add) and src(v.right).replace(' ', '') == '(%s,)' % host:
             return 'ADD'
-        if isinstance(v, ast.Call) and isinstance(v.func, ast.Name) and v.func.id in ('tuple', 'frozenset') and v.args and isinstance(v.args[0], ast.GeneratorExp):
-            g = v.args[0]
+        if isinstance(v, ast.ListComp) or (isinstance(v, ast.Call) and isinstance(v.func, ast.Name) and v.func.id in ('tuple', 'frozenset', 'list') and v.args
+                                           and isinstance(v.args[0], (ast.GeneratorExp, ast.ListComp))):
+            # a fresh collection of the others (a list is fresh too: what is stored is tuple(<that list>) or the list itself, never shared)
+            g = v if isinstance(v, ast.ListComp) else v.args[0]
             if any(isinstance(c, ast.Compare) and isinstance(c.ops[0], ast.NotEq) and src(c.comparators[0]) == host for gen in g.generators for c in gen.ifs):
                 return 'REMOVE'
     return None
@@ -79,7 +81,16 @@ def check(chk):
     chk.judge(good, 'C21.effect', up, 'DCAware.on_up: append host to its DC tuple unless present, under _hosts_lock', 'DC-aware on_up changed: %s' % [src(u)[:60] for u in ups])
     chk.judge('dc = self._dc(host)' in src(up) and "current_hosts = self._dc_live_hosts.get(dc, ())" in src(up), 'C21.effect', up, 'host filed under its own datacenter', 'datacenter key changed')
     dns = [st for st in body_walk(dn) if isinstance(st, ast.Assign) and src(st.targets[0]) in ('hosts', 'self._dc_live_hosts[dc]')]
-    good = any(set_effect(st) == 'REMOVE' for st in dns) and all(holds(st, ('self',), '_hosts_lock') for st in dns) and 'del self._dc_live_hosts[dc]' in src(dn)
+    removed = any(set_effect(st) == 'REMOVE' for st in dns)
+    if not removed:
+        # the same filter written as a loop: for h in current_hosts: if h != host: keep.append(h) ... self._dc_live_hosts[dc] = tuple(keep)
+        for lp_ in [n for n in body_walk(dn) if isinstance(n, ast.For) and src(n.iter) == 'current_hosts' and isinstance(n.target, ast.Name) and len(n.body) == 1 and isinstance(n.body[0], ast.If)]:
+            t_, b_ = lp_.body[0].test, lp_.body[0].body
+            if not lp_.body[0].orelse and src(t_) in ('%s != host' % lp_.target.id, 'host != %s' % lp_.target.id) and len(b_) == 1 and isinstance(b_[0], ast.Expr) \
+                    and isinstance(b_[0].value, ast.Call) and isinstance(b_[0].value.func, ast.Attribute) and b_[0].value.func.attr == 'append' and [src(a_) for a_ in b_[0].value.args] == [lp_.target.id]:
+                keep_ = src(b_[0].value.func.value)
+                removed = any(src(st.targets[0]) == 'self._dc_live_hosts[dc]' and src(st.value) in ('tuple(%s)' % keep_, keep_) for st in dns) and holds(lp_, ('self',), '_hosts_lock')
+    good = removed and all(holds(st, ('self',), '_hosts_lock') for st in dns) and 'del self._dc_live_hosts[dc]' in src(dn)
     chk.judge(good, 'C21.effect', dn, 'DCAware.on_down: host filtered out of its DC tuple (empty DC dropped), under _hosts_lock', 'DC-aware on_down changed')
     for ev, tgt in (('on_add', 'self.on_up(host)'), ('on_remove', 'self.on_down(host)')):
         f = pol.func('DCAwareRoundRobinPolicy.%s' % ev)
